@@ -241,9 +241,8 @@ def bind_rule(cx, rid_bind="C08-BIND", rid_map="C08-MAP", only=None, floor=300):
     am = mod("transpile/ast.py")
     cx.consulted(pm)
     cx.consulted(am)
-    ir_fields = {}
-    for cname, c in am.classes.items():
-        ir_fields[cname] = [st.target.id for st in c.body if isinstance(st, ast.AnnAssign) and isinstance(st.target, ast.Name)]
+    from .. import pe as pe_
+    ir_fields = {cname: [f[0] for f in fl] for cname, fl in pe_.ir_classes()[1].items()}    # dataclass inheritance included
     psl = pm.func("_parse_simple_lines")
     loop = find_dispatch_loop(pm, psl, "snippet")
     local_funcs = {q.split(".")[-1] for q in pm.funcs if q.startswith("_parse_simple_lines.")}
